@@ -39,6 +39,13 @@ pub fn gen_obj_oti(rng: &mut Rng, scheme: Option<Scheme>) -> OtiSpec {
     if scheme == Scheme::RaptorQ || scheme == Scheme::Raptor {
         o.al = if e % 4 == 0 && rng.chance(0.5) { 4 } else { 1 };
     }
+    if scheme == Scheme::RaptorQ && rng.chance(0.3) {
+        // RaptorQ sub-blocking (N > 1): every symbol is made of N sub-symbols of a multiple of Al bytes
+        let n = *rng.pick(&[2u16, 3, 4]);
+        if e % (o.al as u16 * n) == 0 {
+            o.sub_blocks = n;
+        }
+    }
     o
 }
 
